@@ -213,12 +213,16 @@ def accepted_only_when_not(x, pred) -> bool:
     return False
 
 
-def only_cond_frames(g, allowed_conds, ex) -> bool:
-    """all `if` frames enclosing g are tests of one of the allowed condition terms (true polarity)"""
+def only_cond_frames(g, allowed_conds, ex, protected=()) -> bool:
+    """all `if` frames enclosing g are tests of one of the allowed condition terms (true polarity); a frame that also encloses every protected event
+    (the whole reading happens under it, e.g. `if signature == SIG: return from_binary(...)`) does not let anything skip the guard"""
     for x in g.d.get("extra", []):
         if not (x[0] == "rel" and x[1] == "Truthy" and any(unsnap(x[2]) is a for a in allowed_conds)):
             return False
+    protected = list(protected)
     for f in g.ctx:
+        if f[0] == "if" and protected and all(f in p_.ctx for p_ in protected):
+            continue
         if f[0] == "if":
             c = f[1]
             base = c.args[0] if c.op == "truthy" else c
@@ -297,6 +301,11 @@ def reader_rules(m: Bf3Model, chk, pid, want=None):
         ok_const = sigconst == want_sig
         gs = find_guards(ev, lambda op, a, b: op == "NotEq" and sig is not None and ((_is_bytes_of(sig, a) and is_const(b) and cval(b) == want_sig) or (_is_bytes_of(sig, b) and is_const(a) and cval(a) == want_sig)))
         gs = dominating(gs, rets)
+        if not gs and rets:
+            # `if read(n) == SIG: return <parsed file>` followed by the raise: acceptance happens only under the equality
+            sig_pred = lambda op, a, b: op == "NotEq" and sig is not None and ((_is_bytes_of(sig, a) and is_const(b) and cval(b) == want_sig) or (_is_bytes_of(sig, b) and is_const(a) and cval(a) == want_sig))
+            if all(accepted_only_when_not(r_, sig_pred) for r_ in rets):
+                gs = list(rets)
         size_ok = sig is not None and is_const(sig.size) and cval(sig.size) == len(want_sig)
         chk.require(bool(gs) and ok_const and size_ok, P("signature-guard"), fn_read, "read(len(BF3_FILE_SIG)) != BF3_FILE_SIG -> raise", gs[0].where if gs else "%s:%d" % (m.fi_read.file, m.fi_read.lineno),
                     "first 5 bytes are compared with the documented signature 'BF3\\0\\0'; mismatch raises on every accepting path",
@@ -387,7 +396,7 @@ def reader_rules(m: Bf3Model, chk, pid, want=None):
         gs = find_guards(ev, pred, allow_extra=True)
         appends = [e for e in ev if e.kind == "mutate" and e.d["how"] == "append" and any(f[0] == "loop" and f[1] == lid for f in e.ctx)]
         cc = _check_cmac_term(m)
-        good = [g for g in gs if only_cond_frames(g, [cc], ex) and all(dominates(g, a, sw, allow=[f for f in g.ctx if f[0] == "if" and unsnap(f[1].args[0] if f[1].op == "truthy" else f[1]) is cc]) for a in appends)]
+        good = [g for g in gs if only_cond_frames(g, [cc], ex, protected=appends) and all(dominates(g, a, sw, allow=[f for f in g.ctx if f[0] == "if" and unsnap(f[1].args[0] if f[1].op == "truthy" else f[1]) is cc]) for a in appends)]
         if gs and not good:
             why = "entry MAC verification is skipped on some path other than check_cmac=False, or does not precede acceptance of the entry"
         # emac must be the last field of the entry (so that entry[:-16] is exactly what precedes it)
@@ -482,7 +491,7 @@ def reader_rules(m: Bf3Model, chk, pid, want=None):
         gs = find_guards(ev, pred9, allow_extra=True)
         cc = _check_cmac_term(m)
         news = [e for e in ev if e.kind == "new" and e.d["cls"].name == "Bf3Component"]
-        good = [g for g in gs if only_cond_frames(g, [cc], ex) and all(dominates(g, nw, sw, allow=[f for f in g.ctx if f[0] == "if" and unsnap(f[1].args[0] if f[1].op == "truthy" else f[1]) is cc]) for nw in news)]
+        good = [g for g in gs if only_cond_frames(g, [cc], ex, protected=news) and all(dominates(g, nw, sw, allow=[f for f in g.ctx if f[0] == "if" and unsnap(f[1].args[0] if f[1].op == "truthy" else f[1]) is cc]) for nw in news)]
         if gs and not good:
             why9 = "payload MAC verification is skipped on some path other than check_cmac=False, or follows the use of the payload"
         chk.require(bool(good) and bool(news), P("payload-mac"), fn_bin, "cmac(payload, session_key) != pmac -> raise", (good or gs)[0].where if (good or gs) else pay.ev.where,
@@ -772,85 +781,109 @@ def envelope_writer_rules(m: Bf3Model, chk, pid):
     where = "%s:%d" % (fi.file, fi.lineno)
     writes = [e for e in res.events if e.kind == "mcall" and e.d["name"] == "write"]
     T = SPEC["text"]
-    ok, why = len(writes) == 3, "expected three write sites (comments, blank line, hex lines), found %d" % len(writes)
-    if ok:
-        w_comments, w_blank, w_hex = writes
-        loops_c = [f for f in w_comments.ctx if f[0] == "loop"]
-        loops_h = [f for f in w_hex.ctx if f[0] == "loop"]
-        if not loops_h or [f for f in w_blank.ctx if f[0] == "loop"]:
-            ok, why = False, "comment block / separator / hex lines are not written in that order"
-    if ok:
-        sep = unsnap(w_blank.d["args"][0])
-        if not (is_const(sep) and cval(sep) == T["separator"]):
-            ok, why = False, "separator between comments and data is %s, documented one empty line" % show(sep, 3)
-    if ok:
-        # comment lines: "".join(map(lambda tup: FORMAT.format(*tup), comments.items()))
-        t = unsnap(w_comments.d["args"][0])
-        fmt_ok = False
-        elt = it = None
-        if t.op == "join" and is_const(t.args[0]) and cval(t.args[0]) == "" and unsnap(t.args[1]).op == "comp" and not loops_c:
-            cp = unsnap(t.args[1])
-            elt, it = unsnap(cp.args[1]), unsnap(cp.args[2])
-        elif loops_c:
-            # one write per comment inside a for-loop over the mapping's items
-            lrc = ex.loops[loops_c[-1][1]]
-            elt, it = t, (unsnap(lrc.iter) if lrc.iter is not None else None)
-        if elt is not None and it is not None:
-            fm = meth_call(elt)
-            im = meth_call(it)
-            src_ok = bool(im) and im[1] == "items" and unsnap(im[0]).op == "param" and unsnap(im[0]).args[0] == "comments"
-            if fm and fm[1] == "format" and is_const(fm[0]) and cval(fm[0]) == T["comment_format"] and src_ok:
-                a = [unsnap(x) for x in fm[2]]
-                if len(a) == 1 and a[0].op == "star" and unsnap(a[0].args[0]).op == "elem":
-                    fmt_ok = True
-                elif len(a) == 2 and a[0].op in ("sub", "elem", "key") and a[1].op in ("sub", "elem", "value") and a[0] is not a[1]:
-                    fmt_ok = True
-        if not fmt_ok:
-            ok, why = False, "comment lines are not produced as %r per (key, value) of the comments mapping (%s)" % (T["comment_format"], show(t, 5)[:160])
-    if ok:
-        lid = loops_h[-1][1]
-        lr = ex.loops[lid]
-        arg = unsnap(w_hex.d["args"][0])
-        # arg == upper(hex(rawdata[pos:pos+K])) + "\n"
-        line_ok = False
-        while_stop = None
-        K = T["hex_bytes_per_line"]
-        if arg.op == "bin" and arg.args[0] == "Add" and is_const(arg.args[2]) and cval(arg.args[2]) == "\n":
-            up = meth_call(unsnap(arg.args[1]))
-            if up and up[1] == "upper":
-                hx = meth_call(unsnap(up[0]))
-                if hx and hx[1] == "hex" and not hx[2]:
-                    sl = unsnap(hx[0])
-                    if sl.op == "slice" and unsnap(sl.args[0]).op == "param" and unsnap(sl.args[0]).args[0] == "rawdata" and sl.args[3] is NONE:
-                        lo, hi = unsnap(sl.args[1]), unsnap(sl.args[2])
-                        pos = unsnap(lr.target) if lr.kind == "for" else None
-                        if lr.kind == "while" and lr.cond is not None:
-                            # while pos < stop: ...; pos += K   -- the same positions as range(0, stop, K)
-                            rc = rel(lr.cond, True)
-                            if rc[0] == "rel" and rc[1] == "Lt" and unsnap(rc[2]).op == "loopvar" and unsnap(rc[2]).args[0] == lid:
-                                pv = unsnap(rc[2])
-                                if is_const(lr.init.get(pv.args[1], C(None))) and cval(lr.init[pv.args[1]]) == 0 and _is_incr(lr.next.get(pv.args[1]), pv, K):
-                                    pos = pv
-                                    while_stop = unsnap(rc[3])
-                        if pos is not None and lo is pos and hi.op == "bin" and hi.args[0] == "Add" and ((unsnap(hi.args[1]) is pos and is_const(hi.args[2]) and cval(hi.args[2]) == K) or (unsnap(hi.args[2]) is pos and is_const(hi.args[1]) and cval(hi.args[1]) == K)):
-                            line_ok = True
-        if not line_ok:
-            ok, why = False, "a data line is not upper-case hex of rawdata[pos:pos+%d] followed by a newline (%s)" % (K, show(arg, 6))
-        else:
-            it = unsnap(lr.iter) if lr.iter is not None else None
-            rng_ok = False
-            if lr.kind == "while":
-                c = _len_plus_const(while_stop, "rawdata")
-                rng_ok = c is not None and 0 <= c < K
-                it = while_stop
-            elif it is not None and it.op == "range" and len(it.args[0]) == 3:
-                a0, a1, a2 = [unsnap(x) for x in it.args[0]]
-                if is_const(a0) and cval(a0) == 0 and is_const(a2) and cval(a2) == K:
-                    # stop = len(rawdata) + c with 0 <= c < K
-                    c = _len_plus_const(a1, "rawdata")
+    def envelope_group(writes):
+        ok, why = len(writes) == 3, "expected three write sites (comments, blank line, hex lines), found %d" % len(writes)
+        if ok:
+            w_comments, w_blank, w_hex = writes
+            loops_c = [f for f in w_comments.ctx if f[0] == "loop"]
+            loops_h = [f for f in w_hex.ctx if f[0] == "loop"]
+            if not loops_h or [f for f in w_blank.ctx if f[0] == "loop"]:
+                ok, why = False, "comment block / separator / hex lines are not written in that order"
+        if ok:
+            sep = unsnap(w_blank.d["args"][0])
+            if not (is_const(sep) and cval(sep) == T["separator"]):
+                ok, why = False, "separator between comments and data is %s, documented one empty line" % show(sep, 3)
+        if ok:
+            # comment lines: "".join(map(lambda tup: FORMAT.format(*tup), comments.items()))
+            t = unsnap(w_comments.d["args"][0])
+            fmt_ok = False
+            elt = it = None
+            if t.op == "join" and is_const(t.args[0]) and cval(t.args[0]) == "" and unsnap(t.args[1]).op == "comp" and not loops_c:
+                cp = unsnap(t.args[1])
+                elt, it = unsnap(cp.args[1]), unsnap(cp.args[2])
+            elif loops_c:
+                # one write per comment inside a for-loop over the mapping's items
+                lrc = ex.loops[loops_c[-1][1]]
+                elt, it = t, (unsnap(lrc.iter) if lrc.iter is not None else None)
+            if elt is not None and it is not None:
+                fm = meth_call(elt)
+                im = meth_call(it)
+                src_ok = bool(im) and im[1] == "items" and unsnap(im[0]).op == "param" and unsnap(im[0]).args[0] == "comments"
+                if fm and fm[1] == "format" and is_const(fm[0]) and cval(fm[0]) == T["comment_format"] and src_ok:
+                    a = [unsnap(x) for x in fm[2]]
+                    if len(a) == 1 and a[0].op == "star" and unsnap(a[0].args[0]).op == "elem":
+                        fmt_ok = True
+                    elif len(a) == 2 and a[0].op in ("sub", "elem", "key") and a[1].op in ("sub", "elem", "value") and a[0] is not a[1]:
+                        fmt_ok = True
+            if not fmt_ok:
+                ok, why = False, "comment lines are not produced as %r per (key, value) of the comments mapping (%s)" % (T["comment_format"], show(t, 5)[:160])
+        if ok:
+            lid = loops_h[-1][1]
+            lr = ex.loops[lid]
+            arg = unsnap(w_hex.d["args"][0])
+            # arg == upper(hex(rawdata[pos:pos+K])) + "\n"
+            line_ok = False
+            while_stop = None
+            K = T["hex_bytes_per_line"]
+            if arg.op == "bin" and arg.args[0] == "Add" and is_const(arg.args[2]) and cval(arg.args[2]) == "\n":
+                up = meth_call(unsnap(arg.args[1]))
+                if up and up[1] == "upper":
+                    hx = meth_call(unsnap(up[0]))
+                    if hx and hx[1] == "hex" and not hx[2]:
+                        sl = unsnap(hx[0])
+                        if sl.op == "slice" and unsnap(sl.args[0]).op == "param" and unsnap(sl.args[0]).args[0] == "rawdata" and sl.args[3] is NONE:
+                            lo, hi = unsnap(sl.args[1]), unsnap(sl.args[2])
+                            pos = unsnap(lr.target) if lr.kind == "for" else None
+                            if lr.kind == "while" and lr.cond is not None:
+                                # while pos < stop: ...; pos += K   -- the same positions as range(0, stop, K)
+                                rc = rel(lr.cond, True)
+                                if rc[0] == "rel" and rc[1] == "Lt" and unsnap(rc[2]).op == "loopvar" and unsnap(rc[2]).args[0] == lid:
+                                    pv = unsnap(rc[2])
+                                    if is_const(lr.init.get(pv.args[1], C(None))) and cval(lr.init[pv.args[1]]) == 0 and _is_incr(lr.next.get(pv.args[1]), pv, K):
+                                        pos = pv
+                                        while_stop = unsnap(rc[3])
+                            if pos is not None and lo is pos and hi.op == "bin" and hi.args[0] == "Add" and ((unsnap(hi.args[1]) is pos and is_const(hi.args[2]) and cval(hi.args[2]) == K) or (unsnap(hi.args[2]) is pos and is_const(hi.args[1]) and cval(hi.args[1]) == K)):
+                                line_ok = True
+            if not line_ok:
+                ok, why = False, "a data line is not upper-case hex of rawdata[pos:pos+%d] followed by a newline (%s)" % (K, show(arg, 6))
+            else:
+                it = unsnap(lr.iter) if lr.iter is not None else None
+                rng_ok = False
+                if lr.kind == "while":
+                    c = _len_plus_const(while_stop, "rawdata")
                     rng_ok = c is not None and 0 <= c < K
-            if not rng_ok:
-                ok, why = False, "line loop is not range(0, len(rawdata)+c, %d) with 0 <= c < %d (iterates %s)" % (K, K, show(it, 5) if it is not None else None)
+                    it = while_stop
+                elif it is not None and it.op == "range" and len(it.args[0]) == 3:
+                    a0, a1, a2 = [unsnap(x) for x in it.args[0]]
+                    if is_const(a0) and cval(a0) == 0 and is_const(a2) and cval(a2) == K:
+                        # stop = len(rawdata) + c with 0 <= c < K
+                        c = _len_plus_const(a1, "rawdata")
+                        rng_ok = c is not None and 0 <= c < K
+                if not rng_ok:
+                    ok, why = False, "line loop is not range(0, len(rawdata)+c, %d) with 0 <= c < %d (iterates %s)" % (K, K, show(it, 5) if it is not None else None)
+
+        return ok, why
+
+    # the three writes may sit in a helper that is called once on each of two exclusive arms (path opened here / caller's stream): every arm is checked
+    groups = {}
+    for e in writes:
+        groups.setdefault(tuple(f[1] for f in e.ctx if f[0] == "call"), []).append(e)
+    glist = list(groups.values())
+    exclusive = True
+    for i in range(len(glist)):
+        for j in range(i + 1, len(glist)):
+            fa = {(unsnap(f[1]).uid, bool(f[2])) for f in glist[i][0].ctx if f[0] == "if"}
+            fb = {(unsnap(f[1]).uid, bool(f[2])) for f in glist[j][0].ctx if f[0] == "if"}
+            if not any((u, not p_) in fb for (u, p_) in fa):
+                exclusive = False
+    if len(glist) > 1 and exclusive and all(len(g) == 3 for g in glist):
+        ok, why = True, ""
+        for g in glist:
+            ok_g, why_g = envelope_group(g)
+            if not ok_g:
+                ok, why = False, why_g
+    else:
+        ok, why = envelope_group(writes)
     chk.require(ok, P("text-envelope"), fi.qualname, "comments 'k: v' lines, blank line, upper-case hex in 40-byte (80 column) lines covering all of rawdata", where,
                 "comment block, one empty line, then every byte of the binary as upper-case hex, 40 bytes per line", why)
 
